@@ -7,6 +7,7 @@ func allRules() []*Rule {
 		ruleR2(),
 		ruleR3(),
 		ruleR4(),
+		ruleR5(),
 		ruleR6(),
 		ruleR7(),
 		ruleR8(),
